@@ -196,6 +196,14 @@ fn opt_share(p: &VaultRun, x: u128) -> Value {
     }
 }
 
+/// what GetPaybackAmount quotes for a loan of `amt` in the present state (the figure C06 calls "the quoted payback")
+fn quote_json(p: &VaultRun, amt: u128) -> Value {
+    match p.payback(amt) {
+        Some(q) => json!({"res": "ok", "payback": s(q.payback_amount.u128()), "pf": s(q.protocol_fee.u128()), "ff": s(q.flash_loan_fee.u128()), "bf": s(q.burn_fee.u128())}),
+        None => json!({"res": "none", "payback": "0", "pf": "0", "ff": "0", "bf": "0"}),
+    }
+}
+
 fn random_vault_fees(r: &mut StdRng) -> [u128; 3] {
     match r.gen_range(0..6) {
         0 => [0, 0, 0],
@@ -452,6 +460,7 @@ pub fn run_random(rec: &mut Rec, seed: u64, run: u64, nops: usize) {
                     _ => simple_script(&mut r, &p, amt),
                 };
                 let script = vec![Atom::Loan { x: Uint128::new(amt), sub }];
+                pre = json!({"quote": quote_json(&p, amt)});
                 dpre = p.w.digest();
                 let u = p.users[ui].clone();
                 rs = p.w.exec(&u, &p.adv.clone(), &AdvExecute::Run { script: script.clone(), target: p.vault.to_string() }, &[]);
@@ -459,7 +468,6 @@ pub fn run_random(rec: &mut Rec, seed: u64, run: u64, nops: usize) {
                 name = "loan";
                 actor = USERS[ui].into();
                 args = json!({"script": script_json(&script)});
-                pre = json!({});
                 out = json!({});
             }
             // ------------------------------------------------------------ loan through the vault router
@@ -473,6 +481,7 @@ pub fn run_random(rec: &mut Rec, seed: u64, run: u64, nops: usize) {
                     funds: vec![],
                 }
                 .into()];
+                pre = json!({"quote": quote_json(&p, amt)});
                 dpre = p.w.digest();
                 let u = p.users[ui].clone();
                 rs = p.w.exec(
@@ -488,7 +497,6 @@ pub fn run_random(rec: &mut Rec, seed: u64, run: u64, nops: usize) {
                 name = "rloan";
                 actor = USERS[ui].into();
                 args = json!({"amt": s(amt), "script": script_json(&sub)});
-                pre = json!({});
                 out = json!({});
             }
         }
